@@ -213,3 +213,14 @@ also("C12", "control-dependence rule on existence probes", "Also decides that --
 also("C13", "forward must-analysis on the manifest merge", "Also decides that the merge places the new digest and path on every path.")
 also("C15", "key-provenance rule on the measurement printers", "Also decides that measurement-only output is read from the document under the request's own count.")
 also("C19", "guarded-difference rule with count sinks (T21) over the parser package", "Also decides that position differences feeding repeat counts, sizes and bounds are non-negative.")
+
+# rules added after the round-15 seeds
+also("C02", "control-dependence rule on the technology check", "Also decides that the SEV-SNP measurement check runs whenever SNP options were given.")
+also("C06", "aliasing rule on slices of loop-overwritten variables", "Also decides that entries put into the signed document in a loop do not alias one variable.")
+also("C07", "nil-test and who-may-manufacture rules on evidence sources (shared with C16.R8/R9)", "Also decides that the extraction library neither wraps nor calls through an absent evidence source.")
+also("C08", "structural infallibility of discarded decoder errors (shared with C18.R13)", "Also decides that a layout decoder's error is dropped only where the decoder can fail on length alone and is given that many bytes.")
+also("C10", "ESP rule on the gate's success (shared with C12.R2)", "Also decides that an object in the way of a rotation is refused by the gate itself, before the manifest write.")
+also("C11", "must-pass-through rule on the upload gate", "Also decides that an upload is only reported after it went through the gate.")
+also("C12", "ESP rule on the gate's success", "Also decides that the no-clobber gate reports success only after a write or under keep_going.")
+also("C14", "ESP clause on returns after a successful commit", "Also decides that a landed commit is never reported as a failed attempt.")
+also("C18", "exactness clause on constant range checks; structural length-only infallibility", "Also decides that encoders refuse only values that do not fit, and that discarded decoder errors are structurally impossible.")
